@@ -71,6 +71,10 @@ pub fn draw_foreign(rng: &mut Rng, big: bool) -> ForeignSpec {
             contents.push(c);
         }
     }
+    // rarely one very large tile (reads of more than 1 MiB)
+    if !big && rng.chance(1) {
+        contents.push(Cont { k: 1, seed: rng.below(256) as u32, len: (1 << 20) + 1 + rng.below(1_300_000) as u32 });
+    }
     // another writer need not deduplicate: the same bytes may be stored at several offsets
     if rng.chance(25) {
         for i in 0..contents.len().min(4) {
@@ -169,6 +173,8 @@ pub fn draw_layout(rng: &mut Rng, big: bool) -> Layout {
         shuffle_leaves: rng.chance(50),
         empty_meta: rng.chance(25),
         seed: rng.next_u64(),
+        loose_ptr: rng.chance(25),
+        kind_coincidence: rng.chance(30),
     }
 }
 
@@ -251,6 +257,7 @@ pub fn materialise_foreign(f: &ForeignSpec) -> Result<Img, String> {
     let fa = spec::write_foreign(&tile_entries, &data, &meta_plain, &tmpl, &f.layout, distinct.len() as u64, u8::from(f.placement == 0))?;
     // the generator's own output must be spec-valid (harness self-check, not a verdict)
     let v = spec::validate(&fa.image).map_err(|e| format!("foreign writer produced an invalid archive: {e}"))?;
+    let addr = if f.layout.kind_coincidence { v.walk.tiles.clone() } else { addr };
     Ok(Img { image: fa.image, header: fa.header, expected, addr, meta: meta_map, walk: v.walk, foreign: true })
 }
 
@@ -351,6 +358,12 @@ pub fn shrink_foreign(f: &ForeignSpec) -> Vec<ForeignSpec> {
     }
     if l.ic != 1 {
         out.push(ForeignSpec { layout: Layout { ic: 1, ..l.clone() }, ..f.clone() });
+    }
+    if l.loose_ptr {
+        out.push(ForeignSpec { layout: Layout { loose_ptr: false, ..l.clone() }, ..f.clone() });
+    }
+    if l.kind_coincidence {
+        out.push(ForeignSpec { layout: Layout { kind_coincidence: false, ..l.clone() }, ..f.clone() });
     }
     if f.placement != 0 {
         out.push(ForeignSpec { placement: 0, ..f.clone() });
